@@ -2,7 +2,7 @@ SPECIFICATION Spec
 CONSTANTS
   Mode = "mc"
   MaxNodes = 10
-  Enabled = {"Module", "Fn", "Call", "Deref", "Array", "Int"}
+  Enabled = {"Module", "Fn", "Call", "Deref", "Array"}
   FlagSets <- FlagSets_none
   VarForms <- VarForms_init
   FnNames = {"f"}
